@@ -102,7 +102,7 @@ pub struct SizesInfo {
 impl SizesInfo {
     /// Get the uncompressed block size of block `block_num`
     fn uncompressed_block_size_at(&self, block_num: usize) -> u32 {
-        if block_num < self.compressed_sizes.len() - 1 {
+        if block_num < self.compressed_sizes.len().saturating_sub(1) {
             UNCOMPRESSED_DATA_SIZE
         } else {
             self.last_block_size
@@ -114,13 +114,28 @@ impl SizesInfo {
         let block_num = uncompressed_pos / u64::from(UNCOMPRESSED_DATA_SIZE);
         let index = usize::try_from(block_num)
             .map_err(|_| io::Error::new(io::ErrorKind::InvalidData, "Integer conversion failed"))?;
-        Ok(self.compressed_sizes[index])
+        if index < self.compressed_sizes.len() {
+            Ok(self.compressed_sizes[index])
+        } else {
+            Err(io::Error::new(io::ErrorKind::InvalidData, "Block index out of range").into())
+        }
     }
 
     /// Maximum uncompressed available position
     fn max_uncompressed_pos(&self) -> u64 {
-        (self.compressed_sizes.len() as u64 - 1) * u64::from(UNCOMPRESSED_DATA_SIZE)
+        (self.compressed_sizes.len() as u64).saturating_sub(1) * u64::from(UNCOMPRESSED_DATA_SIZE)
             + u64::from(self.last_block_size)
+    }
+
+    /// Consistency check, for a `SizesInfo` read from an (untrusted) footer:
+    /// the last block is at most a full block, and an empty table describes
+    /// an empty stream
+    fn is_consistent(&self) -> bool {
+        if self.compressed_sizes.is_empty() {
+            self.last_block_size == 0
+        } else {
+            self.last_block_size <= UNCOMPRESSED_DATA_SIZE
+        }
     }
 
     // Sum the compressed_sizes
@@ -328,6 +343,12 @@ impl<'a, R: 'a + InnerReaderTrait> LayerReader<'a, R> for CompressionLayerReader
                         return Err(Error::DeserializationError);
                     }
                 };
+                // The footer is untrusted: refuse a size table the reader
+                // cannot use safely
+                if !self.sizes_info.as_ref().is_some_and(SizesInfo::is_consistent) {
+                    self.sizes_info = None;
+                    return Err(Error::DeserializationError);
+                }
 
                 Ok(())
             }
